@@ -96,4 +96,596 @@ theorem cppStringL_render {tbl : List (Char × Str)} (ht : TableOk tbl) (s : Str
   simp only [List.append_nil] at this
   simp only [cppStringL, this]
 
+/-! ## B. trigraphs -/
+
+theorem triScan_cons (q : Nat) (c : Char) (rest : Str) :
+    triScan q (c :: rest) =
+      if c = '?' then triScan (q + 1) rest
+      else (decide (2 ≤ q) && (triChar c).isSome) || triScan 0 rest := by
+  simp only [triScan]
+
+theorem triScan_mono : ∀ (l : Str) (q q' : Nat), q' ≤ q → triScan q l = false → triScan q' l = false := by
+  intro l
+  induction l with
+  | nil => intro q q' _ _; simp [triScan]
+  | cons c rest ih =>
+    intro q q' hle h
+    rw [triScan_cons] at h ⊢
+    by_cases hc : c = '?'
+    · simp only [hc, if_true] at h ⊢
+      exact ih (q + 1) (q' + 1) (by omega) h
+    · simp only [hc, if_false, Bool.or_eq_false_iff, Bool.and_eq_false_iff, decide_eq_false_iff_not] at h ⊢
+      refine ⟨?_, h.2⟩
+      rcases h.1 with h1 | h1
+      · left; omega
+      · right; exact h1
+
+theorem detri_id : ∀ (l : Str), triScan 0 l = false → detri l = l := by
+  intro l
+  induction l using detri.induct with
+  | case1 => intro _; simp [detri]
+  | case2 c c₂ x rest' hq t ht ih =>
+    intro h
+    obtain ⟨h1, h2⟩ := hq
+    subst h1; subst h2
+    have hx : x ≠ '?' := by
+      intro hx; subst hx; simp [triChar] at ht
+    simp [triScan, hx, ht] at h
+  | case3 c c₂ x rest' hq ht ih =>
+    intro h
+    obtain ⟨h1, h2⟩ := hq
+    subst h1; subst h2
+    have : triScan 0 ('?' :: x :: rest') = false := by
+      rw [triScan_cons] at h
+      simp only [if_true] at h
+      exact triScan_mono _ _ _ (by omega) h
+    simp only [detri, ht, and_self, if_true]
+    rw [ih this]
+  | case4 c c₂ x rest' hq ih =>
+    intro h
+    have : triScan 0 (c₂ :: x :: rest') = false := by
+      rw [triScan_cons] at h
+      by_cases hc : c = '?'
+      · simp only [hc, if_true] at h
+        exact triScan_mono _ _ _ (by omega) h
+      · simp only [hc, if_false, Bool.or_eq_false_iff] at h
+        exact h.2
+    simp only [detri, hq, if_false]
+    rw [ih this]
+  | case5 c rest hne ih =>
+    intro h
+    have : triScan 0 rest = false := by
+      rw [triScan_cons] at h
+      by_cases hc : c = '?'
+      · simp only [hc, if_true] at h
+        exact triScan_mono _ _ _ (by omega) h
+      · simp only [hc, if_false, Bool.or_eq_false_iff] at h
+        exact h.2
+    rw [detri]
+    · rw [ih this]
+    · exact hne
+
+theorem triChar_quote : triChar '"' = none := by decide
+theorem triChar_bslash : triChar '\\' = none := by decide
+
+theorem simpleEsc_q {x c : Char} (h : simpleEsc x = some c) (hx : x = '?') : c = '?' := by
+  subst hx
+  have : simpleEsc '?' = some '?' := by decide
+  rw [this] at h
+  exact (Option.some.inj h).symm
+
+theorem triScan_false_tail {q : Nat} {c : Char} {rest : Str} (h : triScan q (c :: rest) = false) :
+    triScan 0 rest = false := by
+  rw [triScan_cons] at h
+  by_cases hc : c = '?'
+  · simp only [hc, if_true] at h
+    exact triScan_mono _ _ _ (by omega) h
+  · simp only [hc, if_false, Bool.or_eq_false_iff] at h
+    exact h.2
+
+/-- the rendered body (followed by the closing quote) contains a trigraph only if the string does -/
+theorem triScan_render {tbl : List (Char × Str)} (ht : TableOk tbl) :
+    ∀ (s : Str) (qo qs : Nat), qo ≤ qs → triScan qs s = false →
+      triScan qo (renderBody tbl s ++ ['"']) = false := by
+  intro s
+  induction s with
+  | nil =>
+    intro qo qs _ _
+    simp [renderBody, triScan, triChar_quote]
+  | cons c cs ih =>
+    intro qo qs hle h
+    -- the verbatim case, shared
+    have verbatim : triScan qo (c :: (renderBody tbl cs ++ ['"'])) = false := by
+      rw [triScan_cons] at h ⊢
+      by_cases hc : c = '?'
+      · simp only [hc, if_true] at h ⊢
+        exact ih (qo + 1) (qs + 1) (by omega) h
+      · simp only [hc, if_false, Bool.or_eq_false_iff, Bool.and_eq_false_iff, decide_eq_false_iff_not] at h ⊢
+        refine ⟨?_, ih 0 0 (by omega) h.2⟩
+        rcases h.1 with h1 | h1
+        · left; omega
+        · right; exact h1
+    simp only [renderBody, List.append_assoc]
+    unfold escOf
+    cases hl : tbl.lookup c with
+    | none => simpa using verbatim
+    | some e =>
+      have hrow := lookup_all ht.1 hl
+      simp only [rowOk, Bool.or_eq_true, Bool.and_eq_true] at hrow
+      rcases hrow with ⟨he, _⟩ | hrow
+      · have he' : e = [c] := by simpa using he
+        subst he'
+        simpa using verbatim
+      · match e, hrow with
+        | [b, x], hrow =>
+          simp only [Bool.and_eq_true, decide_eq_true_eq, beq_iff_eq] at hrow
+          obtain ⟨hb, hx⟩ := hrow
+          subst hb
+          simp only [List.cons_append, List.nil_append]
+          rw [triScan_cons]
+          have hb : ('\\' : Char) ≠ '?' := by decide
+          simp only [hb, if_false, triChar_bslash, Option.isSome_none, Bool.and_false, Bool.false_or]
+          rw [triScan_cons]
+          by_cases hxq : x = '?'
+          · have hcq := simpleEsc_q hx hxq
+            subst hcq
+            rw [triScan_cons] at h
+            simp only [if_true] at h
+            simp only [hxq, if_true]
+            exact ih 1 (qs + 1) (by omega) h
+          · simp only [hxq, if_false]
+            have : ¬ (2 ≤ 0) := by omega
+            simp only [this, decide_false, Bool.false_and, Bool.false_or]
+            exact ih 0 0 (by omega) (triScan_false_tail h)
+
+theorem hasTrigraph_render {tbl : List (Char × Str)} (ht : TableOk tbl) (s : Str)
+    (h : hasTrigraph s = false) : hasTrigraph (renderStrL tbl s) = false := by
+  unfold hasTrigraph renderStrL at *
+  rw [triScan_cons]
+  have hq : ('"' : Char) ≠ '?' := by decide
+  simp only [hq, if_false, triChar_quote, Option.isSome_none, Bool.and_false, Bool.false_or]
+  exact triScan_render ht s 0 0 (by omega) h
+
+theorem cppStringTriL_render {tbl : List (Char × Str)} (ht : TableOk tbl) (s : Str)
+    (h : hasTrigraph s = false) : cppStringTriL (renderStrL tbl s) = some s := by
+  unfold cppStringTriL
+  rw [detri_id _ (hasTrigraph_render ht s h)]
+  exact cppStringL_render ht s
+
+/-! ## C. integers -/
+
+theorem digitChar_toNat_fin : ∀ d : Fin 10, (digitChar d.val).toNat = 48 + d.val := by decide
+
+theorem digitChar_toNat {d : Nat} (h : d < 10) : (digitChar d).toNat = 48 + d :=
+  digitChar_toNat_fin ⟨d, h⟩
+
+theorem digitVal_digitChar {d : Nat} (h : d < 10) : digitVal (digitChar d) = d := by
+  simp [digitVal, digitChar_toNat h]
+
+theorem isDigit_digitChar {d : Nat} (h : d < 10) : isDigit (digitChar d) = true := by
+  simp [isDigit, digitChar_toNat h]; omega
+
+theorem decVal_snoc (xs : Str) (c : Char) : decVal (xs ++ [c]) = decVal xs * 10 + digitVal c := by
+  simp [decVal, List.foldl_append]
+
+theorem decVal_single (c : Char) : decVal [c] = digitVal c := by
+  simp [decVal]
+
+theorem natDigits_succ (f n : Nat) :
+    natDigits (f + 1) n = if n < 10 then [digitChar n] else natDigits f (n / 10) ++ [digitChar (n % 10)] := by
+  simp only [natDigits]
+
+theorem decVal_natDigits : ∀ (f n : Nat), n ≤ f → decVal (natDigits f n) = n := by
+  intro f
+  induction f with
+  | zero =>
+    intro n h
+    have : n = 0 := by omega
+    subst this
+    simp [natDigits, decVal_single, digitVal_digitChar]
+  | succ f ih =>
+    intro n h
+    rw [natDigits_succ]
+    by_cases hn : n < 10
+    · simp only [hn, if_true, decVal_single, digitVal_digitChar hn]
+    · simp only [hn, if_false, decVal_snoc]
+      rw [ih (n / 10) (by omega), digitVal_digitChar (by omega)]
+      omega
+
+theorem natDigits_all_digits : ∀ (f n : Nat), ∀ c ∈ natDigits f n, isDigit c = true := by
+  intro f
+  induction f with
+  | zero =>
+    intro n c hc
+    simp only [natDigits, List.mem_singleton] at hc
+    subst hc
+    exact isDigit_digitChar (by omega)
+  | succ f ih =>
+    intro n c hc
+    rw [natDigits_succ] at hc
+    by_cases hn : n < 10
+    · simp only [hn, if_true, List.mem_singleton] at hc
+      subst hc
+      exact isDigit_digitChar hn
+    · simp only [hn, if_false, List.mem_append, List.mem_singleton] at hc
+      rcases hc with hc | hc
+      · exact ih _ c hc
+      · subst hc
+        exact isDigit_digitChar (by omega)
+
+/-- a positive number is printed with a non-zero first digit -/
+theorem natDigits_head : ∀ (f n : Nat), 1 ≤ n → n ≤ f →
+    ∃ k ds, 1 ≤ k ∧ k < 10 ∧ natDigits f n = digitChar k :: ds := by
+  intro f
+  induction f with
+  | zero => intro n h1 h2; omega
+  | succ f ih =>
+    intro n h1 h2
+    rw [natDigits_succ]
+    by_cases hn : n < 10
+    · exact ⟨n, [], h1, hn, by simp [hn]⟩
+    · obtain ⟨k, ds, hk1, hk2, he⟩ := ih (n / 10) (by omega) (by omega)
+      exact ⟨k, ds ++ [digitChar (n % 10)], hk1, hk2, by simp [hn, he]⟩
+
+theorem spanDigits_all : ∀ (ds : Str), (∀ c ∈ ds, isDigit c = true) → spanDigits ds = (ds, []) := by
+  intro ds
+  induction ds with
+  | nil => intro _; rfl
+  | cons c r ih =>
+    intro h
+    have hc := h c (by simp)
+    have hr := ih (fun x hx => h x (by simp [hx]))
+    simp [spanDigits, hc, hr]
+
+/-- digits followed by a text that does not start with a digit -/
+theorem spanDigits_append : ∀ (ds rest : Str), (∀ c ∈ ds, isDigit c = true) →
+    (∀ c r, rest = c :: r → isDigit c = false) → spanDigits (ds ++ rest) = (ds, rest) := by
+  intro ds
+  induction ds with
+  | nil =>
+    intro rest _ hr
+    cases rest with
+    | nil => rfl
+    | cons c r => simp [spanDigits, hr c r rfl]
+  | cons c r ih =>
+    intro rest h hr
+    have hc := h c (by simp)
+    have hrr := ih rest (fun x hx => h x (by simp [hx])) hr
+    simp [spanDigits, hc, hrr]
+
+theorem digitChar_ne_zero {k : Nat} (h1 : 1 ≤ k) (h2 : k < 10) : digitChar k ≠ '0' := by
+  intro h
+  have := congrArg Char.toNat h
+  rw [digitChar_toNat h2] at this
+  have h0 : ('0' : Char).toNat = 48 := by decide
+  omega
+
+theorem digitChar_ne_minus {k : Nat} (h2 : k < 10) : digitChar k ≠ '-' := by
+  intro h
+  have := congrArg Char.toNat h
+  rw [digitChar_toNat h2] at this
+  have h0 : ('-' : Char).toNat = 45 := by decide
+  omega
+
+theorem decLit_natDigits (f n : Nat) (h : n ≤ f) :
+    decLit (natDigits f n) = (intLitType true (false, 0) n).map fun t => (n, t) := by
+  unfold decLit
+  rw [spanDigits_all _ (natDigits_all_digits f n)]
+  have hne : natDigits f n ≠ [] := by
+    cases f with
+    | zero => simp [natDigits]
+    | succ f =>
+      rw [natDigits_succ]
+      by_cases hn : n < 10 <;> simp [hn]
+  simp only [hne, if_false, decVal_natDigits f n h]
+  have : intSuffix [] = some (false, 0) := by decide
+  simp only [this]
+
+theorem cppIntLit_renderNat (n : Nat) :
+    cppIntLit (renderNat n) = (intLitType true (false, 0) n).map fun t => (n, t) := by
+  by_cases h0 : n = 0
+  · subst h0; decide
+  · obtain ⟨k, ds, hk1, hk2, he⟩ := natDigits_head n n (by omega) (by omega)
+    have hd := decLit_natDigits n n (by omega)
+    unfold renderNat
+    rw [he] at hd ⊢
+    simp only [cppIntLit, digitChar_ne_zero hk1 hk2, if_false]
+    exact hd
+
+theorem renderNat_head (n : Nat) : ∃ k ds, k < 10 ∧ renderNat n = digitChar k :: ds := by
+  by_cases h0 : n = 0
+  · subst h0; exact ⟨0, [], by omega, by decide⟩
+  · obtain ⟨k, ds, _, hk2, he⟩ := natDigits_head n n (by omega) (by omega)
+    exact ⟨k, ds, hk2, he⟩
+
+theorem cppIntL_renderInt_ofNat (n : Nat) :
+    cppIntL (renderInt (Int.ofNat n)) = (intLitType true (false, 0) n).map fun t => ((n : Int), t) := by
+  obtain ⟨k, ds, hk, he⟩ := renderNat_head n
+  have hl := cppIntLit_renderNat n
+  simp only [renderInt]
+  rw [he] at hl ⊢
+  have hm := digitChar_ne_minus hk
+  unfold cppIntL
+  split
+  · next r heq => simp at heq; exact absurd heq.1 hm
+  · rw [hl]; cases intLitType true (false, 0) n <;> rfl
+
+theorem cppIntL_renderInt_negSucc (n : Nat) :
+    cppIntL (renderInt (Int.negSucc n)) =
+      (intLitType true (false, 0) (n + 1)).map fun t => (Int.negSucc n, t) := by
+  simp only [renderInt, cppIntL, cppIntLit_renderNat]
+  cases intLitType true (false, 0) (n + 1) with
+  | none => rfl
+  | some t =>
+    simp only [Option.map_some]
+    congr 2
+
+/-! ## D. floating literals -/
+
+theorem digs_all_digits (ds : List (Fin 10)) : ∀ c ∈ digs ds, isDigit c = true := by
+  intro c hc
+  simp only [digs, List.mem_map] at hc
+  obtain ⟨d, _, rfl⟩ := hc
+  exact isDigit_digitChar d.isLt
+
+theorem foldl_digs (ds : List (Fin 10)) : ∀ a : Nat,
+    (digs ds).foldl (fun a c => a * 10 + digitVal c) a = ds.foldl (fun a d => a * 10 + d.val) a := by
+  induction ds with
+  | nil => intro a; rfl
+  | cons d r ih =>
+    intro a
+    simp only [digs, List.map_cons, List.foldl_cons] at ih ⊢
+    rw [digitVal_digitChar d.isLt]
+    exact ih _
+
+theorem decVal_digs (ds : List (Fin 10)) : decVal (digs ds) = valDigits ds := foldl_digs ds 0
+
+theorem digs_append (a b : List (Fin 10)) : digs a ++ digs b = digs (a ++ b) := by
+  simp [digs]
+
+theorem digs_length (ds : List (Fin 10)) : (digs ds).length = ds.length := by simp [digs]
+
+theorem digs_eq_nil {ds : List (Fin 10)} : digs ds = [] ↔ ds = [] := by simp [digs]
+
+theorem isDigit_e : isDigit 'e' = false := by decide
+theorem isDigit_dot : isDigit '.' = false := by decide
+theorem isDigit_minus : isDigit '-' = false := by decide
+theorem isDigit_plus : isDigit '+' = false := by decide
+
+theorem lexExponent_some (eneg : Bool) (ed : List (Fin 10)) (h : ed ≠ []) :
+    lexExponent ('e' :: (if eneg then '-' else '+') :: digs ed) =
+      some (some (if eneg then -(valDigits ed : Int) else (valDigits ed : Int)), []) := by
+  have hsp := spanDigits_all (digs ed) (digs_all_digits ed)
+  have hne : digs ed ≠ [] := fun hh => h (digs_eq_nil.1 hh)
+  cases eneg <;> simp [lexExponent, hsp, hne, decVal_digs]
+
+/-- the mantissa part `ddd` or `ddd.ddd` followed by `rest` that starts with neither digit nor `.` -/
+theorem cppFloatLit_some_frac (ip f : List (Fin 10)) (hip : ip ≠ []) (rest : Str)
+    (hr : ∀ c r, rest = c :: r → isDigit c = false) :
+    cppFloatLit (digs ip ++ ('.' :: (digs f ++ rest))) =
+      match lexExponent rest with
+      | none => none
+      | some (ex, r) => (floatSuffix r).map fun t =>
+          ({ neg := false, mant := valDigits (ip ++ f), exp := ex.getD 0 - (f.length : Int) }, t) := by
+  have h1 : spanDigits (digs ip ++ ('.' :: (digs f ++ rest))) = (digs ip, '.' :: (digs f ++ rest)) :=
+    spanDigits_append _ _ (digs_all_digits ip) (by intro c r h; simp at h; rw [← h.1]; exact isDigit_dot)
+  have h2 : spanDigits (digs f ++ rest) = (digs f, rest) :=
+    spanDigits_append _ _ (digs_all_digits f) hr
+  have hne : digs ip ≠ [] := fun hh => hip (digs_eq_nil.1 hh)
+  unfold cppFloatLit
+  simp only [h1, List.tail_cons, decide_true, if_true, h2, hne, false_and, if_false]
+  cases lexExponent rest with
+  | none => rfl
+  | some p =>
+    obtain ⟨ex, r⟩ := p
+    simp only [Bool.not_true, Bool.false_and, Bool.false_eq_true, if_false, digs_append, decVal_digs, digs_length]
+
+theorem cppFloatLit_no_frac (ip : List (Fin 10)) (hip : ip ≠ []) (eneg : Bool) (ed : List (Fin 10))
+    (hed : ed ≠ []) :
+    cppFloatLit (digs ip ++ ('e' :: (if eneg then '-' else '+') :: digs ed)) =
+      some ({ neg := false, mant := valDigits ip,
+              exp := (if eneg then -(valDigits ed : Int) else (valDigits ed : Int)) }, .double) := by
+  have h1 : spanDigits (digs ip ++ ('e' :: (if eneg then '-' else '+') :: digs ed)) =
+      (digs ip, 'e' :: (if eneg then '-' else '+') :: digs ed) :=
+    spanDigits_append _ _ (digs_all_digits ip) (by intro c r h; simp at h; rw [← h.1]; exact isDigit_e)
+  have hne : digs ip ≠ [] := fun hh => hip (digs_eq_nil.1 hh)
+  have hdot : (('e' : Char) = '.') = False := by decide
+  unfold cppFloatLit
+  simp only [h1, hdot, decide_false, Bool.false_eq_true, if_false, hne, false_and,
+    lexExponent_some eneg ed hed]
+  simp [floatSuffix, decVal_digs]
+
+theorem renderFloat_pos (ip : List (Fin 10)) (fp : Option (List (Fin 10)))
+    (ex : Option (Bool × List (Fin 10))) :
+    renderFloat false ip fp ex = digs ip ++
+      ((match fp with | some f => '.' :: digs f | none => []) ++
+       (match ex with | some (eneg, ed) => 'e' :: (if eneg then '-' else '+') :: digs ed | none => [])) := by
+  cases fp <;> cases ex <;> simp [renderFloat]
+
+theorem renderFloat_neg (ip : List (Fin 10)) (fp : Option (List (Fin 10)))
+    (ex : Option (Bool × List (Fin 10))) :
+    renderFloat true ip fp ex = '-' :: renderFloat false ip fp ex := by
+  simp [renderFloat]
+
+theorem cppFloatLit_render (ip : List (Fin 10)) (fp : Option (List (Fin 10)))
+    (ex : Option (Bool × List (Fin 10))) (wf : WFRepr (.finite false ip fp ex)) :
+    cppFloatLit (renderFloat false ip fp ex) = some (floatValue false ip fp ex, .double) := by
+  obtain ⟨hip, hfp, hex, hsome⟩ := wf
+  rw [renderFloat_pos]
+  cases fp with
+  | none =>
+    cases ex with
+    | none => simp at hsome
+    | some e =>
+      obtain ⟨eneg, ed⟩ := e
+      have hed : ed ≠ [] := fun h => hex (by simp [h])
+      simp only [List.nil_append]
+      rw [cppFloatLit_no_frac ip hip eneg ed hed]
+      simp [floatValue]
+  | some f =>
+    cases ex with
+    | none =>
+      have := cppFloatLit_some_frac ip f hip [] (by intro c r h; simp at h)
+      simp only [List.append_nil] at this ⊢
+      rw [this]
+      simp [lexExponent, floatSuffix, floatValue]
+    | some e =>
+      obtain ⟨eneg, ed⟩ := e
+      have hed : ed ≠ [] := fun h => hex (by simp [h])
+      have := cppFloatLit_some_frac ip f hip ('e' :: (if eneg then '-' else '+') :: digs ed)
+        (by intro c r h; simp at h; rw [← h.1]; exact isDigit_e)
+      simp only [List.cons_append] at this ⊢
+      rw [this, lexExponent_some eneg ed hed]
+      simp [floatSuffix, floatValue]
+
+theorem digs_head {ip : List (Fin 10)} (h : ip ≠ []) : ∃ k r, k < 10 ∧ digs ip = digitChar k :: r := by
+  cases ip with
+  | nil => exact absurd rfl h
+  | cons d r => exact ⟨d.val, digs r, d.isLt, rfl⟩
+
+theorem cppFloatL_render (neg : Bool) (ip : List (Fin 10)) (fp : Option (List (Fin 10)))
+    (ex : Option (Bool × List (Fin 10))) (wf : WFRepr (.finite neg ip fp ex)) :
+    cppFloatL (renderFloat neg ip fp ex) = some (floatValue neg ip fp ex, .double) := by
+  have wf' : WFRepr (.finite false ip fp ex) := wf
+  have hl := cppFloatLit_render ip fp ex wf'
+  cases neg with
+  | true =>
+    rw [renderFloat_neg]
+    simp only [cppFloatL, hl, Option.map_some]
+    simp [floatValue]
+  | false =>
+    obtain ⟨k, r, hk, he⟩ := digs_head wf.1
+    have hm := digitChar_ne_minus hk
+    have hshape : ∃ t, renderFloat false ip fp ex = digitChar k :: t := by
+      rw [renderFloat_pos, he]; exact ⟨_, rfl⟩
+    obtain ⟨t, ht⟩ := hshape
+    rw [ht] at hl ⊢
+    unfold cppFloatL
+    split
+    · next r' heq => simp at heq; exact absurd heq.1 hm
+    · exact hl
+
+/-! ## E. names between quotes; lines -/
+
+theorem lex_plain : ∀ (s tail : Str), PlainName s → lex .norm (s ++ '"' :: tail) = some (s, tail) := by
+  intro s
+  induction s with
+  | nil => intro tail _; simp [lex_norm_cons, onNorm]
+  | cons c cs ih =>
+    intro tail h
+    simp only [PlainName, List.all_cons, Bool.and_eq_true, Bool.not_eq_true'] at h
+    simp only [List.cons_append]
+    rw [lex_norm_plain c _ h.1, ih tail (by simpa [PlainName] using h.2)]
+    rfl
+
+theorem cppStringLit_verbatim (s tail : Str) (h : PlainName s) :
+    cppStringLit ('"' :: (s ++ '"' :: tail)) = some (s, tail) := by
+  simp only [cppStringLit, if_true]
+  exact lex_plain s tail h
+
+theorem drop_length_append (a b : Str) : (a ++ b).drop a.length = b := by
+  induction a with
+  | nil => rfl
+  | cons x xs ih => simp only [List.cons_append, List.length_cons, List.drop_succ_cons]; exact ih
+
+theorem bankLine_lit {tbl : List (Char × Str)} (ht : TableOk tbl) (pre suf bank : Str) :
+    cppStringLit ((bankLine tbl pre suf bank).drop pre.length) = some (bank, suf) := by
+  unfold bankLine
+  rw [List.append_assoc, drop_length_append]
+  exact cppStringLit_render ht bank suf
+
+theorem renderSegs_litPrefix (tbl : List (Char × Str)) (tree col var : Str) :
+    ∀ segs : List Seg, renderSegs tbl tree col var segs =
+      (litPrefix segs).1 ++ renderSegs tbl tree col var (litPrefix segs).2 := by
+  intro segs
+  induction segs with
+  | nil => simp [litPrefix, renderSegs]
+  | cons s ss ih =>
+    cases s with
+    | lit t => simp only [litPrefix, renderSegs, renderSeg, List.append_assoc]; rw [ih]
+    | _ => simp [litPrefix]
+
+theorem getLast?_quote {l : Str} (h : l.getLast? = some '"') : ∃ l', l = l' ++ ['"'] ∧ l.length - 1 = l'.length := by
+  induction l with
+  | nil => simp at h
+  | cons x xs ih =>
+    cases xs with
+    | nil =>
+      simp at h
+      exact ⟨[], by simp [h], by simp⟩
+    | cons y ys =>
+      have h' : (y :: ys).getLast? = some '"' := by simpa [List.getLast?_cons_cons] using h
+      obtain ⟨l', he, hl⟩ := ih h'
+      exact ⟨x :: l', by simp [he], by simp at hl ⊢; omega⟩
+
+theorem head?_quote {t : Str} (h : t.head? = some '"') : ∃ t', t = '"' :: t' := by
+  cases t with
+  | nil => simp at h
+  | cons x xs => simp at h; exact ⟨xs, by rw [h]⟩
+
+/-- the verbatim case: `pre' " name " t' …` lexed from the position of the opening quote -/
+theorem nameAt_verbatim (pre t rest name : Str) (hp : pre.getLast? = some '"')
+    (ht : t.head? = some '"') (hn : PlainName name) :
+    nameAt (pre.length - 1) (pre ++ (name ++ (t ++ rest))) = some name := by
+  obtain ⟨pre', hpe, hlen⟩ := getLast?_quote hp
+  obtain ⟨t', hte⟩ := head?_quote ht
+  rw [hlen]
+  subst hpe; subst hte
+  unfold nameAt
+  rw [List.append_assoc, drop_length_append]
+  simp only [List.cons_append, List.nil_append]
+  rw [cppStringLit_verbatim name _ hn]
+  rfl
+
+theorem nameAt_escaped {tbl : List (Char × Str)} (htb : TableOk tbl) (pre rest name : Str) :
+    nameAt pre.length (pre ++ (renderStrL tbl name ++ rest)) = some name := by
+  unfold nameAt
+  rw [drop_length_append, cppStringLit_render htb]
+  rfl
+
+theorem nameAt_bookLine {tbl : List (Char × Str)} (htb : TableOk tbl) (segs : List Seg)
+    (hok : BookLineOk segs = true) (tree col var : Str) (off : Nat) (k : NameKind) (esc : Bool)
+    (hs : nameSlot segs = some (off, k, esc))
+    (hn : esc = false → PlainName (pickName k tree col)) :
+    nameAt off (renderSegs tbl tree col var segs) = some (pickName k tree col) := by
+  rw [renderSegs_litPrefix]
+  unfold nameSlot at hs
+  unfold BookLineOk at hok
+  simp only [Bool.and_eq_true] at hok
+  obtain ⟨_, hok⟩ := hok
+  generalize (litPrefix segs).1 = pre at *
+  generalize (litPrefix segs).2 = post at *
+  match post, hs, hok with
+  | .tree :: .lit t :: post', hs, hok =>
+    simp only [Option.some.injEq, Prod.mk.injEq] at hs
+    obtain ⟨rfl, rfl, rfl⟩ := hs
+    simp only [Bool.and_eq_true, beq_iff_eq] at hok
+    simp only [renderSegs, renderSeg, pickName]
+    exact nameAt_verbatim pre t _ tree hok.1 hok.2 (hn rfl)
+  | .col :: .lit t :: post', hs, hok =>
+    simp only [Option.some.injEq, Prod.mk.injEq] at hs
+    obtain ⟨rfl, rfl, rfl⟩ := hs
+    simp only [Bool.and_eq_true, beq_iff_eq] at hok
+    simp only [renderSegs, renderSeg, pickName]
+    exact nameAt_verbatim pre t _ col hok.1 hok.2 (hn rfl)
+  | .treeEsc :: post', hs, hok =>
+    simp only [Option.some.injEq, Prod.mk.injEq] at hs
+    obtain ⟨rfl, rfl, rfl⟩ := hs
+    simp only [renderSegs, renderSeg, pickName]
+    exact nameAt_escaped htb pre _ tree
+  | .colEsc :: post', hs, hok =>
+    simp only [Option.some.injEq, Prod.mk.injEq] at hs
+    obtain ⟨rfl, rfl, rfl⟩ := hs
+    simp only [renderSegs, renderSeg, pickName]
+    exact nameAt_escaped htb pre _ col
+
+/-! ## F. small facts used by the theorems -/
+
+theorem intLitType_dec (v : Nat) :
+    intLitType true (false, 0) v =
+      if v < 2 ^ 31 then some .int else if v < 2 ^ 63 then some .long else none := by
+  simp [intLitType]
+
+theorem Dec.same_refl (d : Dec) : Dec.same d d := ⟨rfl, rfl⟩
+
 end FaxVerif.C18
